@@ -165,7 +165,7 @@ class PlanJoinTSPredictorQuery:
         last_step = self.planner.plan.add_step(JoinStep(left=left, right=right, query=new_join))
 
         # limit from timeseries
-        if predictor_steps.get('saved_limit'):
+        if predictor_steps.get('saved_limit') is not None:
             last_step = self.planner.plan.add_step(LimitOffsetStep(dataframe=last_step.result,
                                                            limit=predictor_steps['saved_limit']))
 
@@ -203,6 +203,23 @@ class PlanJoinTSPredictorQuery:
         validate_ts_where_condition(preparation_where, allowed_columns=allowed_columns)
 
         time_filter = find_time_filter(preparation_where, time_column_name=predictor_time_column_name)
+
+        # `10 < t` is `t > 10`: below, the order column is read on the left side of the condition
+        mirrored_ops = {'<': '>', '<=': '>=', '>': '<', '>=': '<=', '=': '='}
+
+        def is_time_column(node):
+            return isinstance(node, Identifier) and node.parts[-1].lower() == predictor_time_column_name.lower()
+
+        if (
+                isinstance(time_filter, BinaryOperation)
+                and time_filter.op in mirrored_ops
+                and is_time_column(time_filter.args[1])
+                and not is_time_column(time_filter.args[0])
+        ):
+            mirrored = BinaryOperation(mirrored_ops[time_filter.op], args=[time_filter.args[1], time_filter.args[0]])
+            preparation_where = replace_time_filter(preparation_where, time_filter, mirrored)
+            no_time_filter_query.where = preparation_where
+            time_filter = mirrored
 
         order_by = [OrderBy(Identifier(parts=[predictor_time_column_name]), direction='DESC')]
 
